@@ -186,6 +186,10 @@ func runThresh(t ev.TB, part string, c *Thresh) (classes []string, concluded boo
 			br.closeKept()
 			return inconclusive()
 		}
+		if !r.settle("warm-up clients done, upstreams still stalled", r.requestsEnded(), desc) {
+			br.closeKept()
+			return classes, false
+		}
 		r.release()
 		st := r.info.Stats()
 		if st.UpstreamRequestTimeout.Count() > 0 {
